@@ -173,6 +173,11 @@ fn check(ctx: &mut Ctx, k: &Case, strict_repl: bool) -> Vec<Violation> {
             return out;
         }
         if let Some(c) = r.crashed() {
+            // a request for more memory than can exist is outside every property (C08's exclusion)
+            if c.contains("capacity overflow") || r.err_text().contains("memory allocation of") {
+                ctx.excluded(1);
+                return out;
+            }
             out.push(fail(&e2e::crash_signature(&c), format!("{} mode crashed: {}\nargs {:?}\n{}", name, c, k.args, k.body)));
             return out;
         }
